@@ -181,12 +181,11 @@ Qed.
 Section Query.
   Variable fetch : list line -> Z -> option Z -> option Z -> res (list line).
   (* the tabix contract: on a file tabix accepted, fetch is the reference instance *)
-  Hypothesis fetch_ok : forall f q a b, tabix_okb f = true -> fetch f q a b = fetch_spec f q a b.
+  Hypothesis fetch_ok : forall f q a b, tabix_accepts f = true -> fetch f q a b = fetch_spec f q a b.
 
   Variable f : list line.
-  Hypothesis Htab : tabix_okb f = true.
+  Hypothesis Htab : tabix_accepts f = true.
   Hypothesis W : wf f.
-  Hypothesis NoX : forall l, In l f -> match l with LX _ _ _ _ _ => False | _ => True end.
 
   Let V := vrecs f.
   Definition vitems (h : hrec) : list item :=
@@ -327,15 +326,17 @@ Section Query.
   Qed.
 
   Lemma hit_lines_hr c a b : In c (contigs f) ->
+    (forall t s e x, ~ In (LX t c s e x) f) ->       (* no line of an unknown type on this contig *)
     forall l, In l (filter (hit c a b) f) ->
       match l with LH _ _ _ _ _ | LR _ _ _ _ _ => True | _ => False end.
   Proof.
-    intros Hc l Hl. apply filter_In in Hl. destruct Hl as [Hin Hhit].
+    intros Hc NoX l Hl. apply filter_In in Hl. destruct Hl as [Hin Hhit].
     destruct l as [k|k s e j x|k s e j x|h s e j al x|t q s e x]; try exact I.
     - discriminate.
     - unfold hit in Hhit. cbn [tbx] in Hhit. apply andb_true_iff in Hhit. destruct Hhit as [E _].
       apply Z.eqb_eq in E. subst h. eapply (wf_idcontig f W); [|exact Hc]. apply W. eapply In_vhap; eauto.
-    - exact (NoX _ Hin).
+    - unfold hit in Hhit. cbn [tbx] in Hhit. apply andb_true_iff in Hhit. destruct Hhit as [E _].
+      apply Z.eqb_eq in E. subst q. exact (NoX _ _ _ _ Hin).
   Qed.
 
   (* containment implies overlap, so filtering by overlap first loses nothing *)
@@ -386,11 +387,12 @@ Section Query.
   Lemma indexed_region_eq_filter r ids :
     (r_a r = None -> r_b r = None) ->          (* 'c', 'c:a-b' or 'c:a-' *)
     In (r_contig r) (contigs f) ->
+    (forall t s e x, ~ In (LX t (r_contig r) s e x) f) ->
     exists full, read_plain f None = Ok full /\
       read_indexed false fetch f (Some r) ids = Ok (filter (selected (Some r) ids) full).
   Proof.
-    intros Hab Hc. eexists. split; [apply read_plain_closed, W|].
-    destruct r as [c a b]. cbn [r_contig r_a r_b] in Hc, Hab.
+    intros Hab Hc NoX. eexists. split; [apply read_plain_closed, W|].
+    destruct r as [c a b]. cbn [r_contig r_a r_b] in Hc, Hab, NoX.
     unfold read_indexed, iter_indexed. cbn [r_contig r_a r_b].
     rewrite fetch_ok by exact Htab. unfold fetch_spec. rewrite contig_seq by exact Hc.
     rewrite iter_region_ok by (now apply hit_lines_hr).
@@ -456,24 +458,45 @@ Proof.
 Qed.
 
 (* what holds_query1 = true says about an observed answer *)
-Lemma holds_query1_sound file full q :
-  holds_query1 file full q = true ->
-  match q_reg q with Some r => In (r_contig r) (contigs file) | None => True end ->
+Lemma demand_sound full q : demand full q = true ->
   exists out out', q_res q = Ok out /\ Permutation out out' /\
     Forall2 entry_same (filter (selected (q_reg q) (q_ids q)) full) out'.
 Proof.
-  unfold holds_query1. intros H Hp.
-  replace (match q_reg q with Some r => memZ (r_contig r) (contigs file) | None => true end) with true in H.
-  - destruct (q_res q) as [out|]; [|discriminate]. 
-    destruct (perm_eqb_sound entry_sim entry_same entry_sim_sound _ _ H) as [l [Hl Hf]].
-    exists out, l. auto.
-  - destruct (q_reg q); [|reflexivity]. symmetry. now apply memZ_In.
+  unfold demand. intros H. destruct (q_res q) as [out|]; [|discriminate].
+  destruct (perm_eqb_sound entry_sim entry_same entry_sim_sound _ _ H) as [l [Hl Hf]].
+  exists out, l. auto.
+Qed.
+
+(* a region query counts when its contig is in the file, the string passed is the
+   canonical spelling of (contig, a, b) and the region is in the scope of the
+   demand; a query by IDs alone always counts *)
+Definition counts (strict : bool) (nm : names) (file : list line) (q : qobs) : Prop :=
+  (strict = true \/ risky_ids nm file = false) /\
+  match q_reg q, q_str q with
+  | Some r, Some s => In (r_contig r) (contigs file) /\ canonical nm r s = true
+                      /\ in_scope strict nm file r s = true
+  | None, None => True
+  | _, _ => False
+  end.
+
+Lemma holds_query1_sound strict nm file full q :
+  holds_query1 strict nm file full q = true -> counts strict nm file q ->
+  exists out out', q_res q = Ok out /\ Permutation out out' /\
+    Forall2 entry_same (filter (selected (q_reg q) (q_ids q)) full) out'.
+Proof.
+  unfold holds_query1, counts. intros H [Hr Hp].
+  replace (negb strict && risky_ids nm file) with false in H
+    by (destruct Hr as [->| ->]; [reflexivity|now rewrite andb_false_r]).
+  destruct (q_reg q) as [r|] eqn:Er, (q_str q) as [s|]; try contradiction.
+  - destruct Hp as [Hc [Hk Hs]]. apply memZ_In in Hc. rewrite Hc, Hk, Hs in H. cbn [andb] in H.
+    rewrite <- Er. now apply demand_sound.
+  - rewrite <- Er. now apply demand_sound.
 Qed.
 
 (* the pinned tree: a haplotype without variants breaks every query selecting it *)
 Example legacy_variantless_query_refuted :
   let f := [LC 0; LH 1 10 30 2 []] in
-  tabix_okb f = true /\ wf_file f = true /\
+  tabix_accepts f = true /\ wf_file f = true /\
   read_plain f None = Ok [(mkh false 1 10 30 2, [])] /\
   read_indexed true fetch_spec f (Some (mkreg 1 None None)) None = Err E_Value /\
   read_indexed false fetch_spec f (Some (mkreg 1 None None)) None = Ok [(mkh false 1 10 30 2, [])].
